@@ -139,6 +139,8 @@ def run(ctx):
     if ctx.replay:
         rp = json.load(open(ctx.replay))
         ex = [l.split("\t") for l in rp["script"]]
+        if (rp.get("meta") or {}).get("mode") == "ts":
+            run_h = lambda s, l: ctx.run([exe, s, l, str(cap), "ts"], timeout=900)
         conform(ctx, "replay", [ex], run_h, "Trace_LeakBlocks", tcfg, pcfg, lb.key_fn, meta=rp.get("meta"))
         return ctx.finish("replay of one recorded execution", 1)
 
@@ -168,6 +170,8 @@ def run(ctx):
         ctx.sample({"source": "TLC " + lab, "execution": lb.show(execs[ctx.rng.randrange(len(execs))])})
         conform(ctx, lab, execs, run_h, "Trace_LeakBlocks", tcfg, pcfg, lb.key_fn, tlc_timeout=1800)
         ctx.evaluations += sum(len(e) for e in execs)
+        if lab == "bfs":
+            bfs_execs = execs
         distinct.update(json.dumps(e) for e in execs if nontrivial(e))
 
     # ---- leg 3: systematic sweeps over the quantifier's axes and seeded random histories, validated against the specification
@@ -183,6 +187,10 @@ def run(ctx):
     conform(ctx, "random", rnd, run_h, "Trace_LeakBlocks", tcfg, pcfg, lb.key_fn, tlc_timeout=1800)
     ctx.evaluations += sum(len(e) for e in rnd)
     distinct.update(json.dumps(e[:40]) for e in rnd)
+    # ---- the same calls through the thread-safe overloads, and with detector period switches interleaved (a release before any plugin exists,
+    # or between disable() and enable(), is checked and poisoned like any other)
+    again = (bfs_execs if not quick else bfs_execs[::3]) + (sw if not quick else sw[::3]) + rnd
+    lb.mode_legs(ctx, conform, exe, again, tcfg, pcfg, chunk=8000)
     return ctx.finish(
         rule="executions = TLC-generated behaviours of LeakBlocks (exhaustive to depth 3 on one slot; simulation to depth 14 on 3 slots) + systematic "
              "sweeps (every guard position x byte value x size x family; every user byte position; allocating x releasing family x allocator "
@@ -190,7 +198,9 @@ def run(ctx):
              "real global entry points on a private detector; distinct = distinct call sequences; non-trivial = contains a write, a foreign/"
              "interior/NULL release or a release after a configuration change",
         distinct_nontrivial=len(distinct), exhaustive=False,
-        assumptions=["underlying memory comes from the harness arena through recording TestMemoryAllocators installed with setCurrent*Allocator; "
+        assumptions=["the generated behaviours, sweeps and random histories are run three times: as they are, through the thread-safe operator new/delete overloads, "
+                     "and with MemoryLeakDetector::disable / enable / startChecking calls interleaved (LeakBlocks!SetPeriod changes nothing)",
+                     "underlying memory comes from the harness arena through recording TestMemoryAllocators installed with setCurrent*Allocator; "
                      "the wrapper allocator is a harness class following the actualAllocator() protocol of MemoryLeakAllocator/AccountingTestMemoryAllocator",
                      "the failure callback records and returns (in a test run it would end the test); what the detector does after it is not part of the property",
                      "'overwritten' is judged against two fill values (0x5A/0xA5) stored by the harness just before the release; the poison value itself is not required",
